@@ -481,7 +481,25 @@ func kindsWith(af *ast.File, method string) []string {
 
 // typeTestPrelude checks the method sets / declarations behind the dynamic type tests and returns the
 // generated `asLocationSlice`, `asContiguous`, `asRanged`
-func typeTestPrelude(af *ast.File) string {
+func typeTestPrelude(repo string, af *ast.File) string {
+	// no other file of the package gives a type a `slice` / `span` method (it would change what the
+	// type tests `.(locationSlice)` / `.(contiguousLocation)` accept)
+	if files, err := filepath.Glob(filepath.Join(repo, "*.go")); err == nil {
+		for _, f := range files {
+			if strings.HasSuffix(f, "_test.go") || filepath.Base(f) == "location.go" {
+				continue
+			}
+			of, perr := parser.ParseFile(token.NewFileSet(), f, nil, 0)
+			if perr != nil {
+				refuse("%s: %v", filepath.Base(f), perr)
+			}
+			for _, d := range of.Decls {
+				if fd, ok := d.(*ast.FuncDecl); ok && fd.Recv != nil && (fd.Name.Name == "slice" || fd.Name.Name == "span") {
+					refuse("%s declares a method %s: the method sets behind the type tests are not the ones of location.go", filepath.Base(f), fd.Name.Name)
+				}
+			}
+		}
+	}
 	have := map[string]string{}
 	for _, f := range arithFns {
 		have[f.recv+"."+f.name] = f.lean
@@ -501,9 +519,6 @@ func typeTestPrelude(af *ast.File) string {
 	if got := structText(af, "Complemented"); got != "Location Location" {
 		refuse("location.go: struct Complemented is %q", got)
 	}
-	// every method of the receiver-typed kinds is declared in location.go: a `slice` / `span` method
-	// anywhere else in the package would not be seen here — the kinds are checked to be declared in
-	// this file, and Go requires the methods of a type to live in the package of the type
 	if got := strings.Join(kindsWith(af, "slice"), ","); got != "Joined,Ordered" {
 		refuse("location.go: the kinds with a slice method are %s, expected Joined,Ordered", got)
 	}
@@ -554,7 +569,7 @@ func genLocLess(repo string) (text string, err error) {
 	if perr != nil {
 		return "", perr
 	}
-	prelude := typeTestPrelude(af)
+	prelude := typeTestPrelude(repo, af)
 	fd := findFunc(af, "LocationLess")
 	if fd == nil || fd.Body == nil {
 		refuse("location.go: LocationLess not found")
